@@ -38,8 +38,9 @@ def tensor(alph, shape, idx):
     return np.array(vals[::-1], dtype=complex).reshape(shape)
 
 
-def place(x_c, s, d):
-    """canonical (K, D, F, T) -> array with source axis at s and sensor axis at d."""
+def place(x_c, s, d, view=False):
+    """canonical (K, D, F, T) -> array with source axis at s and sensor axis at d; `view`: a transposed view
+    of the canonical buffer (axes moved without copying) instead of a fresh C-contiguous array."""
     nd = x_c.ndim
     order = [None] * nd
     order[s], order[d] = 0, 1
@@ -47,6 +48,8 @@ def place(x_c, s, d):
     for i in range(nd):
         if order[i] is None:
             order[i] = next(rest)
+    if view:
+        return np.transpose(np.array(x_c), order), order
     return np.ascontiguousarray(np.transpose(x_c, order)), order
 
 
@@ -72,9 +75,11 @@ def run_small(key):
         for d in range(nd):
             if d == s:
                 continue
-            x, order = place(x_c, s, d)
-            x.setflags(write=False)
             for neg in (False, True):
+                # negative indices are combined with a strided view of the canonical buffer (moveaxis/transposed
+                # input as a caller would pass it), positive ones with a fresh C-contiguous array
+                x, order = place(x_c, s, d, view=neg)
+                x.setflags(write=False)
                 sa, da = (s - nd, d - nd) if neg else (s, d)
                 for keep in (False, True):
                     # --- ideal binary mask
